@@ -77,7 +77,7 @@ Definition Jt (s s' : st) : Prop :=
 Definition yield_ok_t (s : st) (y : yielded B) : Prop :=
   Inv3 o (y_st y) /\ tk (y_st y) = mand (tk s) (fmask o w (y_index y))
   /\ name_of O w (y_index y) = Some (y_name y)
-  /\ (exists rest, indices_of d_target o (tk (y_st y)) = y_target y :: rest)
+  /\ pick_target w o (tk (y_st y)) = Some (y_target y)
   /\ (exists s2, body (y_st y) = Ok (y_body y, s2)).
 
 Lemma Jt_refl : forall s, Inv3 o s -> Jt s s.
@@ -89,10 +89,10 @@ Lemma it_loop_spec_t : body_tk_ok o body -> forall s l s' ys s'', Jt s s' ->
 Proof.
   intros HB s. induction l as [|v l IH]; intros s' ys s'' HJ H; cbn [it_loop] in H.
   - inversion H; subst. split; [exact HJ|]. split; [reflexivity | constructor].
-  - fold o in H. rewrite it_tfield_eq in H.
+  - fold o in H.
     destruct (select o s' (yield_kw w v)) as [s1|] eqn:E1; [|discriminate].
     destruct (name_of O w v) as [nm|] eqn:En; [|discriminate].
-    destruct (indices_of d_target o (tk s1)) as [|t rest] eqn:Et; [discriminate|].
+    destruct (pick_target w o (tk s1)) as [t|] eqn:Et; [|discriminate].
     destruct (body s1) as [[b s2]|] eqn:Eb; [|discriminate].
     destruct HJ as (H3 & HM & HT).
     destruct (yield_step o w v s' s1 H3 E1) as (I1 & T1 & _ & _ & _ & _ & K1).
@@ -111,7 +111,7 @@ Proof.
     constructor; [|exact Hall].
     unfold yield_ok_t; cbn [y_st y_index y_name y_target y_body].
     split; [exact I1|]. split; [rewrite T1, HM; reflexivity|]. split; [exact En|].
-    split; [exists rest; exact Et | exists s2; exact Eb].
+    split; [exact Et | exists s2; exact Eb].
 Qed.
 
 Lemma tkey_not_special : forall k, tkey k = true -> String.eqb k "subarray" = false /\ String.eqb k "spw" = false /\ String.eqb k "reset" = false.
@@ -261,23 +261,23 @@ Theorem break_spec : body_ok o body -> forall n s ys a sf, Inv3 o s ->
   /\ wk sf = wk s /\ flk sf = flk s
   /\ (forall k, lookup k (sel sf) = if String.eqb k (it_pop w) then Some (VScans [SIdx (ab_index a)]) else lookup k (sel s))
   /\ name_of O w (ab_index a) = Some (ab_name a)
-  /\ (exists rest, indices_of d_target o (tk sf) = ab_target a :: rest).
+  /\ pick_target w o (tk sf) = Some (ab_target a).
 Proof.
-  intros HB n s ys a sf H3 H. unfold iterate_break in H. fold o in H. rewrite it_tfield_eq in H.
+  intros HB n s ys a sf H3 H. unfold iterate_break in H. fold o in H.
   destruct (nth_error (indices_of (it_field w) o (tk s)) n) as [v|] eqn:En.
   2:{ destruct (iterate O w body s) as [[? ?]|]; discriminate. }
   destruct (it_loop O w (tk s) body (firstn n (indices_of (it_field w) o (tk s))) s) as [[ys' s']|] eqn:E; [|discriminate].
   destruct (it_loop_spec O w body HB s _ s ys' s' (J_refl O w s H3) E) as (HJ & Hmap & Hall).
   destruct (select o s' (yield_kw w v)) as [s1|] eqn:E1; [|discriminate].
   destruct (name_of O w v) as [nm|] eqn:Enm; [|discriminate].
-  destruct (indices_of d_target o (tk s1)) as [|t rest] eqn:Et; [discriminate|].
+  destruct (pick_target w o (tk s1)) as [t|] eqn:Et; [|discriminate].
   inversion H; subst ys a sf. clear H. cbn [ab_st ab_index ab_name ab_target].
   destruct HJ as (I' & HM & HW & HF & HK).
   destruct (yield_step o w v s' s1 I' E1) as (I1 & T1 & F1 & B1 & W1 & L1 & K1).
   split; [reflexivity|]. split; [reflexivity|]. split; [exact Hmap|]. split; [exact Hall|]. split; [exact I1|].
   split; [rewrite T1; change (tk s') with (mget DT s'); rewrite (HM DT); reflexivity|].
   split; [rewrite F1; apply (HM DF)|]. split; [rewrite B1; apply (HM DB)|]. split; [congruence|]. split; [congruence|].
-  split; [|split; [exact Enm | exists rest; exact Et]].
+  split; [|split; [exact Enm | exact Et]].
   intro k. rewrite K1. destruct (String.eqb_spec k (it_pop w)); [reflexivity|].
   destruct (HK k) as [?|[? _]]; [assumption | contradiction].
 Qed.
